@@ -92,6 +92,7 @@ def all_mutants(schema, pop, rng, per_class=2):
     fresh_id = max(ids) + 1000
     order = list(insts)
     rng.shuffle(order)
+    order.sort(key=lambda i: i is not insts[-1])   # the last instance of the section first: its faults have their own detection paths
     by_cls = {}
 
     def add(m):
@@ -143,6 +144,18 @@ def all_mutants(schema, pop, rng, per_class=2):
                     add(Mut('wrong literal kind: %s' % lab, kd + cx, inst.id, _replace(insts, inst.id, pi, j, rep), 'attribute %d of %s (%s) given %r' % (j, kw, a.type.text(), rep), pos=pos))
                 if kd == 'enum':
                     add(Mut('undeclared enumeration item', kd + cx, inst.id, _replace(insts, inst.id, pi, j, ('enum', 'NOSUCHITEM')), 'attribute %d of %s' % (j, kw), pos=pos))
+                    td = schema.underlying(a.type)
+                    declared = set(x.upper() for x in td.items)
+                    cur = v[1] if v[0] == 'enum' else td.items[0].upper()
+                    variants = [('proper prefix of a declared item', cur[:-1]), ('declared item with an extra letter', cur + 'X'),
+                                ('declared item with a doubled first letter', cur[:1] + cur), ('suffix of a declared item', cur[1:])]
+                    others = [x.upper() for t2 in schema.types if t2.kind == 'enum' and t2 is not td for x in t2.items]
+                    if others:
+                        variants.append(('item of another enumeration', others[0]))
+                    for lab, item in variants:
+                        if item and item not in declared and item.replace('_', 'a').isalnum() and not item[0].isdigit():
+                            add(Mut('undeclared enumeration item: %s' % lab, kd + cx, inst.id, _replace(insts, inst.id, pi, j, ('enum', item)),
+                                    'attribute %d of %s: .%s. (declared: %s)' % (j, kw, item, sorted(declared)), pos=pos))
                 if kd in ('BOOLEAN',):
                     add(Mut('undeclared enumeration item', kd + cx, inst.id, _replace(insts, inst.id, pi, j, ('enum', 'U')), '.U. for a BOOLEAN attribute %d of %s' % (j, kw), pos=pos))
                 if kd == 'aggregate' and not a.optional:
@@ -184,7 +197,8 @@ def all_mutants(schema, pop, rng, per_class=2):
             add(Mut('duplicate instance id', 'simple instance', inst.id, insts[:pos_i + 1] + [dup] + insts[pos_i + 1:], '#%d twice' % inst.id))
         # --- unterminated instance / string (raw text edits)
         nxt = ids[ids.index(inst.id) + 1] if ids.index(inst.id) + 1 < len(ids) else None
-        add(Mut('missing ; (unterminated instance)', 'complex instance' if inst.complex else 'simple instance', inst.id, insts, '#%d' % inst.id,
+        where = ', last of the section' if nxt is None else ''
+        add(Mut('missing ; (unterminated instance)', ('complex instance' if inst.complex else 'simple instance') + where, inst.id, insts, '#%d' % inst.id,
                 exempt=[nxt] if nxt else [], raw_edit=lambda line: line.rstrip()[:-1] if line.rstrip().endswith(';') else line))
         has_str = any(v[0] == 'str' for _kw, vals in inst.parts for v in vals)
         if has_str:
